@@ -320,7 +320,7 @@ int check_main(int argc, char **argv) {
     std::set<std::string> reported; std::vector<std::string> replay_paths;
     std::sort(found.begin(), found.end(), [](const Found &a, const Found &b) { return a.seed < b.seed; });
     for (auto &f : found) {
-        if (reported.count(f.sig) || reported.size() >= 4) continue;
+        if (reported.count(f.sig) || reported.size() >= (size_t)(getenv("VERIF_MAXREPORT") ? atoi(getenv("VERIF_MAXREPORT")) : 4)) continue;
         reported.insert(f.sig);
         Program p = pf->gen(f.seed, thorough);
         if (f.kind == "crash") {
@@ -342,7 +342,8 @@ int check_main(int argc, char **argv) {
         if (s1 != f.sig || s2 != f.sig || r1.st.ev_hash != r2.st.ev_hash) { printf("INFRASTRUCTURE: violation at seed %llu is not deterministic (sig %s / %s / %s)\n", (unsigned long long)f.seed, f.sig.c_str(), s1.c_str(), s2.c_str()); exit_code = 2; continue; }
         int reruns = 0; Program small = shrink(*pf, p, f.sig, thorough ? 600 : 300, reruns);
         RunResult rs; Program sm = small; run_sig(*pf, sm, &rs);
-        std::string path = write_replay(id, small, rs, f.sig, verif_dir() + "/out/replay", std::to_string(f.seed));
+        unsigned sh = 0; for (char ch : f.sig) sh = sh * 131 + (unsigned char)ch;
+        std::string path = write_replay(id, small, rs, f.sig, verif_dir() + "/out/replay", std::to_string(f.seed) + "-" + std::to_string(sh % 100000));
         std::string o; int rc = replay_fresh(path, &o);
         if (rc != 1) { printf("INFRASTRUCTURE: minimised replay %s does not reproduce in a fresh process (exit %d)\n%s\n", path.c_str(), rc, o.c_str()); exit_code = 2; continue; }
         printf("VIOLATION property=%s replay=%s\n  seed=%llu class=%s shrunk %zu->%zu ops in %d re-runs, %d ranks, %zu faults, %zu schedule deviations\n  %s\n  program: %s\n", id.c_str(), path.c_str(),
